@@ -1,4 +1,5 @@
 import TmVerif.Model.LRRef
+import TmVerif.Proofs.LRRefJust
 /-!
 C03 — lookahead sets are exactly LALR(1): property theorems about the reference construction
 (`Model/LRRef.lean`) the real tables are compared with on every run.
@@ -6,6 +7,21 @@ C03 — lookahead sets are exactly LALR(1): property theorems about the referenc
 The reference defines LALR(1) as item-level propagation over the LR(0) automaton (= LR(1) items
 merged by core). `laClosed` is the decision procedure the driver runs on the computed sets; the
 theorems below say what a `true` verdict means, for every grammar, table and assignment.
+
+Exactness has two halves. FROM BELOW (`C03_la_closed_*`): the computed sets are closed under the
+propagation rules, i.e. large enough. FROM ABOVE (`C03_la_least`): a justification certificate
+(`Model/LRJust.lean`: rank + reason per set bit, checked by `justOk` on every run) shows that every
+bit is forced, i.e. contained in EVERY solution `L` of the propagation equations. The equations
+(`LASolution`) are stated with the grammar's TRUE nullable symbols and FIRST sets, defined
+inductively (`Nullable`, `First`), not with the computed ones: this is the weakest reasonable
+hypothesis on `L` for the upper half, since the computed FIRST/nullable are proved to be contained in
+the inductive ones for every grammar (`C03_nullable_sound`, `C03_first_sound`; invariants of the
+folds), and `L` has to be closed only at items that belong to the state (`laDom la s`).
+`C03_la_exact` puts both halves together: the computed assignment is itself a solution (this needs
+the converse inclusion FIRST/nullable ⊆ computed, which holds when the computed ones are closed under
+the rules: `nfClosed`, checked on every run) and lies below every solution, so it is THE least
+solution of the LALR(1) equations on this automaton (`C03_la_unique`). A spurious lookahead — and
+with it a spurious conflict — can therefore not be "expected" by the reference.
 -/
 namespace TmVerif.LRRef
 open TmVerif.CFG TmVerif.LR
@@ -54,5 +70,119 @@ theorem C03_subMask_spec (a b : Nat) (h : subMask a b = true) (i : Nat) (hi : a.
   have := congrArg (fun n => n.testBit i) h'
   simp [Nat.testBit_and, hi] at this
   exact this
+
+/-! ### exactness from above -/
+
+/-- the computed nullable list holds only symbols that derive ε (every grammar) -/
+theorem C03_nullable_sound (g : Grammar) (X : Nat) (h : (nullable g).contains X = true) :
+    Nullable g X :=
+  nullable_sound g X h
+
+/-- the computed FIRST sets hold only terminals that can begin a sentential form of the sequence
+(every grammar, every sequence) -/
+theorem C03_first_sound (g : Grammar) (β : List Nat) (a : Nat)
+    (h : (firstOfSeq g (nullable g) (firstSets g (nullable g)) β).testBit a = true) : First g β a :=
+  firstOfSeq_sound (nullable_sound g) (firstSets_sound g) β a h
+
+/-- with the closedness check of the driver, computed nullable = inductive nullable -/
+theorem C03_nullable_exact (g : Grammar) (hwf : g.wf = true) (hnf : nfClosed g = true) (X : Nat) :
+    (nullable g).contains X = true ↔ Nullable g X :=
+  ⟨nullable_sound g X, nullable_complete (nfClosed_elim hwf hnf)⟩
+
+/-- with the closedness check of the driver, computed FIRST = inductive FIRST -/
+theorem C03_first_exact (g : Grammar) (hwf : g.wf = true) (hnf : nfClosed g = true)
+    (β : List Nat) (a : Nat) :
+    (firstOfSeq g (nullable g) (firstSets g (nullable g)) β).testBit a = true ↔ First g β a :=
+  ⟨C03_first_sound g β a, first_complete (nfClosed_elim hwf hnf)⟩
+
+/-- LEASTNESS: if the justification certificate is accepted, every terminal of every computed
+lookahead set belongs to the corresponding set of EVERY assignment `L` that solves the LALR(1)
+propagation equations on this automaton (`LASolution`: start sets, goto rule, closure rule with the
+inductive FIRST/nullable). By induction on the rank recorded in the certificate. -/
+theorem C03_la_least (g : Grammar) (t : Tables) (la : LA) (just : Just)
+    (h : justOk g t la just = true) (L : Nat → Item → Nat)
+    (hL : LASolution g t (laDom la) L) (s : Nat) (it : Item) (a : Nat)
+    (hb : (laGet la s it).testBit a = true) : (L s it).testBit a = true :=
+  la_least h hL _ s it a rfl hb
+
+/-- EXACTNESS: under the five decidable checks the driver performs on every sampled grammar, the
+computed assignment solves the equations and is contained in every solution. -/
+theorem C03_la_exact (g : Grammar) (t : Tables) (la : LA) (just : Just)
+    (hwf : g.wf = true) (hnf : nfClosed g = true) (hinit : laInitOk g la = true)
+    (hc : laClosed g t la = true) (hj : justOk g t la just = true) :
+    LASolution g t (laDom la) (laGet la) ∧
+    ∀ L, LASolution g t (laDom la) L →
+      ∀ s it a, (laGet la s it).testBit a = true → (L s it).testBit a = true :=
+  ⟨la_solution hwf hnf hinit hc, fun L hL s it a hb => C03_la_least g t la just hj L hL s it a hb⟩
+
+/-- … hence it is the unique least solution: any least solution has the same sets. -/
+theorem C03_la_unique (g : Grammar) (t : Tables) (la : LA) (just : Just)
+    (hwf : g.wf = true) (hnf : nfClosed g = true) (hinit : laInitOk g la = true)
+    (hc : laClosed g t la = true) (hj : justOk g t la just = true)
+    (L : Nat → Item → Nat) (hL : LASolution g t (laDom la) L)
+    (hmin : ∀ L', LASolution g t (laDom la) L' →
+      ∀ s it a, (L s it).testBit a = true → (L' s it).testBit a = true)
+    (s : Nat) (it : Item) (a : Nat) : (L s it).testBit a = (laGet la s it).testBit a := by
+  obtain ⟨h1, h2⟩ := C03_la_exact g t la just hwf hnf hinit hc hj
+  have e1 := hmin _ h1 s it a
+  have e2 := h2 L hL s it a
+  cases hl : (L s it).testBit a <;> cases hr : (laGet la s it).testBit a <;> simp_all
+
+/-! Non-vacuity: the real tables of `lalr.Compile` for `E: T '+' E | T ; T: '(' E ')' | id ;`
+(terminals 2 `+`, 3 `(`, 4 `)`, 5 `id`; the `exG2`/`exT2` of Props/C01.lean, a grammar with a lookahead
+state). All five checks hold with the certificate computed by `laJustify`, so `C03_la_exact`
+applies; and the same assignment with ONE spurious terminal (`(` added to the lookahead set
+`{$, +, )}` of `T → id .` in state 2) has NO accepted certificate, whatever ranks and reasons it
+offers. -/
+private def exG2 : Grammar :=
+  { nTerms := 6, nSyms := 8,
+    rules := #[⟨6, [7, 2, 6], 0⟩, ⟨6, [7], 0⟩, ⟨7, [3, 6, 4], 0⟩, ⟨7, [5], 0⟩],
+    inputs := #[⟨6, true⟩] }
+private def exT2 : Tables :=
+  { nTerms := 6, action := #[-1,-1,3,-3,-1,-1,2,0,-1,-2], lalr := #[2,-1,0,1,4,1,-1,-2],
+    goto_ := #[0,2,2,4,10,12,18,24,30],
+    fromTo := #[8,9,3,5,0,1,1,1,5,1,4,6,0,2,1,2,5,2,0,8,1,4,5,7,0,3,1,3,5,3],
+    ruleLen := #[3,1,3,1], ruleSymbol := #[6,6,7,7], finalStates := #[9] }
+private def exPhi : Phi := (phiWalk exG2 exT2).toOption.getD default
+private def exLA : LA := laFix exG2 exT2 exPhi
+private def exJust : Just := (laJustify exG2 exT2 exPhi exLA).getD #[]
+
+private theorem exChecks : exG2.wf = true ∧ nfClosed exG2 = true ∧ laInitOk exG2 exLA = true ∧
+    laClosed exG2 exT2 exLA = true ∧ justOk exG2 exT2 exLA exJust = true := by
+  refine ⟨by decide +kernel, by decide +kernel, by decide +kernel, by decide +kernel,
+    by decide +kernel⟩
+
+example : (phiWalk exG2 exT2).toOption.isSome = true ∧ (laJustify exG2 exT2 exPhi exLA).isSome = true ∧
+    laGet exLA 2 (3, 1) = 0b10101 := by
+  refine ⟨by decide +kernel, by decide +kernel, by decide +kernel⟩
+
+example : LASolution exG2 exT2 (laDom exLA) (laGet exLA) :=
+  (C03_la_exact exG2 exT2 exLA exJust exChecks.1 exChecks.2.1 exChecks.2.2.1 exChecks.2.2.2.1
+    exChecks.2.2.2.2).1
+
+/-- `exLA` with terminal 3 `(` added to the lookahead set of `T → id .` in state 2 -/
+private def exBig : LA := laAdd exLA 2 (3, 1) 0b1000
+
+example : laGet exBig 2 (3, 1) = 0b11101 ∧ ¬ ∃ just, justOk exG2 exT2 exBig just = true := by
+  refine ⟨by decide +kernel, ?_⟩
+  rintro ⟨just, h⟩
+  have hsol := (C03_la_exact exG2 exT2 exLA exJust exChecks.1 exChecks.2.1 exChecks.2.2.1
+    exChecks.2.2.2.1 exChecks.2.2.2.2).1
+  have hdom : laDom exBig = laDom exLA := by
+    funext s
+    by_cases hs : s < 10
+    · have : s = 0 ∨ s = 1 ∨ s = 2 ∨ s = 3 ∨ s = 4 ∨ s = 5 ∨ s = 6 ∨ s = 7 ∨ s = 8 ∨ s = 9 := by
+        omega
+      rcases this with h | h | h | h | h | h | h | h | h | h <;> subst h <;> decide +kernel
+    · have h1 : exBig.size = 10 := by decide +kernel
+      have h2 : exLA.size = 10 := by decide +kernel
+      unfold laDom
+      simp [Array.getD_eq_getD_getElem?, Array.getElem?_eq_none (show exBig.size ≤ s by omega),
+        Array.getElem?_eq_none (show exLA.size ≤ s by omega)]
+  have := C03_la_least exG2 exT2 exBig just h (laGet exLA) (hdom ▸ hsol) 2 (3, 1) 3
+    (by decide +kernel)
+  have h0 : (laGet exLA 2 (3, 1)).testBit 3 = false := by decide +kernel
+  rw [h0] at this
+  cases this
 
 end TmVerif.LRRef
